@@ -292,7 +292,7 @@ def explore_pair(res, pair, bound, module_code, kind, max_execs, nthreads=2):
     return n, outcomes, capped, stats['touch']
 
 
-def module_digest(name):
+def module_digest(name, as_dict=False):
     """Repr of every module-level object of a module (and of instances reachable from them, depth 3) except functions,
     classes and modules: changes when a call leaves a trace in module-level state."""
     import types
@@ -322,6 +322,8 @@ def module_digest(name):
             parts.append((k, len(v.prefixes)))
             continue
         parts.append((k, walk(v, 0)))
+    if as_dict:
+        return dict(parts)
     return repr(parts)
 
 
@@ -370,6 +372,81 @@ def _steady(res, name, events, quick):
                                                    watch_module_code=False)
     res['extra'].setdefault('steady_state_mutators', {})['%s.%s' % (name, events[0][1])] = execs
     return execs, execs
+
+
+class _GlobalsWatch:
+    """Scheduling points at every line of the functions of one source file that name one of the given module-level
+    attributes (the state that the first call initialises); code objects change with every fresh import, file and
+    names do not."""
+
+    def __init__(self, path, names):
+        self.path = path
+        self.names = set(names)
+
+    def __contains__(self, code):
+        return code.co_filename == self.path and code.co_name != '<module>' and bool(self.names & set(code.co_names))
+
+
+class _FileWatch:
+    """Scheduling points at every line of the named functions defined in one source file (code objects change with
+    every fresh import, the file does not)."""
+
+    def __init__(self, path):
+        self.path = path
+
+    def __contains__(self, code):
+        # generator expressions / comprehensions / lambdas run as one step (the first-use windows are between the
+        # statements of named functions; the steady-state harness has the full granularity)
+        return code.co_filename == self.path and not code.co_name.startswith('<')
+
+
+def _firstuse(res, name, fn, inputs, quick):
+    """Lazy initialisation inside a module: if the first call leaves a trace in the module's own module-level state,
+    the two-thread schedules of [fn(a) || fn(b)] are explored from the freshly imported module (the import itself is
+    done by the main thread), every thread compared with its answer in a fresh state."""
+    import importlib
+    e4.purge()
+    try:
+        importlib.import_module(name)
+    except Exception:
+        return 0, 0
+    d0 = module_digest(name, True)
+    e4.call((name, fn, (inputs[0],), ()))
+    d1 = module_digest(name, True)
+    changed = sorted(k for k in set(d0) | set(d1) if d0.get(k) != d1.get(k))
+    if not changed:
+        return 1, 0
+    path = sys.modules[name].__file__
+    total = 0
+    for b in inputs[:24 if quick else 200]:
+        events = [(name, fn, (inputs[0],), ()), (name, fn, (b,), ())]
+        exp = [pristine(e) for e in events]
+
+        def mk():
+            return [lambda e=e: e4.call(e)[0] for e in events]
+
+        def reset():
+            e4.purge()
+            importlib.import_module(name)
+
+        def check(results, taken, sched):
+            bad = [i for i in range(2) if results.get(i) != exp[i]]
+            if bad:
+                i = bad[0]
+                got = results.get(i)
+                res.viol(ID, 'schedule-changes-result', events[i][0], events[i][1],
+                         {'kind': 'firstuse', 'events': [_enc_hist([('call', e)])[0] for e in events], 'schedule': taken},
+                         'two threads, first use of the module: under schedule %r thread %d observed %r, in a fresh state it is %r' % (taken[:40], i, got, exp[i]),
+                         'fresh-state observation', excinfo=(got or ('none',))[0] + ('/' + str(got[1]) if got and got[0] == 'raise' else ''),
+                         devclass='firstuse:%s.%s' % (name, fn), rank=[sum(1 for c in taken if c), len(taken), repr(taken)])
+            return repr(sorted(results.items()))
+        execs, outcomes, capped = e4.explore_schedules(mk, _GlobalsWatch(path, changed), 2, reset, check,
+                                                       max_execs=400 if quick else 5000, watch_module_code=False, horizon=20000)
+        if capped:
+            res['extra'].setdefault('caps_hit', {})['firstuse:%s' % name] = execs
+        total += execs
+    res['extra'].setdefault('first_use_mutators', {})['%s.%s %s' % (name, fn, ','.join(changed))] = total
+    return total, total
 
 
 _battery_cache = []
@@ -470,14 +547,23 @@ def work(item):
                 if name not in ('stdnum.be.bis', 'stdnum.be.ssn'):
                     continue
             sv = seedmod.seeds(name, 2)
-            for s, v in sv:
+            vals = [v for s, v in sv]
+            try:
+                from .. import e2
+                vals += [x for x in e2.valid_set(name, m, 'quick', nseeds=2, cap=6)[0] if x not in vals]
+            except Exception:
+                pass
+            for v in vals:
                 for fn in ('validate', 'get_birth_date', 'get_birth_year', 'is_valid'):
                     if not hasattr(m, fn):
                         continue
                     e = (name, fn, (v,), ())
-                    n += 1
-                    nt += 1
-                    check_history(res, [('call', e), ('clock', d2), ('call', e), ('clock', d1), ('call', e)], kind, clk=d1)
+                    # the process starts (and imports the module) at da, then the clock moves on: 1999 -> 2038 -> 1999
+                    # and 1970 -> 2038 -> 1970 (documented numbers dated between the two)
+                    for da in (d1, datetime.date(1970, 1, 1)):
+                        n += 1
+                        nt += 1
+                        check_history(res, [('call', e), ('clock', d2), ('call', e), ('clock', da), ('call', e)], kind, clk=da)
     elif kind in ('sched', 'sched3'):
         if kind == 'sched':
             pair = SCHEDULE_PAIRS[idx]
@@ -613,6 +699,17 @@ def work(item):
                 near.sort(key=lambda x: (-len(os.path.commonprefix([x, vals[0]])), x))
             except Exception:
                 near = []
+            # lazy initialisation: first use of the module from two threads (documented spellings and table entries)
+            spell = list(dict.fromkeys([x for sv_ in seedmod.seeds(name, 12) for x in sv_]))
+            try:
+                from .. import synth
+                spell += [x for x in synth.table_inputs(name, m0, seedmod.seeds(name, 2), limit=6) if x not in spell]
+            except Exception:
+                pass
+            if spell:
+                n0, t0 = _firstuse(res, name, 'validate', spell, quick)
+                n += n0
+                nt += t0
             for fn in fns:
                 events = [(name, fn, (vals[0],), ()), (name, fn, (vals[1],), ())]
                 if near:
@@ -800,6 +897,10 @@ def replay(case):
         r2 = work(('twice', j % 16, 'quick'))
         return [dict(v, sig=None) for v in r2['violations'] if v['case'].get('module') == case['module']][:1]
     events = [_dec_hist([e])[0][1] for e in case['events']]
+    if case['kind'] == 'firstuse':
+        r2 = Result()
+        _firstuse(r2, events[0][0], events[0][1], [events[0][2][0], events[1][2][0]], True)
+        return [dict(v, sig=None) for v in r2['violations'][:1]]
     if case['kind'] == 'steady':
         r2 = Result()
         _steady(r2, events[0][0], events, True)
